@@ -440,8 +440,13 @@ def c11_cases(h, rng, n):
                 ops.append(("update", "analog", 0, str(100 + k), 1, 100 + k))
             elif a == 7:
                 ops.append(("sleep", 1000 + rng.choice([-1, 0, 1])))
-            elif a == 8:
+            elif a == 8 and rng.chance(1, 2):
                 ops.append(("rx", MASTER, "none", hexs(frag((seq + 5) & 15, FN["delay"]))))
+            elif a == 8:
+                # the master polls again: same object headers, NEXT sequence number - a new request, not a retransmission
+                seq = (seq + 1) & 15
+                ops.append(("rx", MASTER, "none", hexs(bytes([ctl(seq)]) + req[1:])))
+                s = seq
             else:
                 ops.append(("disconnect",))
         sid = "c11_s_%d" % i
@@ -476,7 +481,7 @@ def c11_cases(h, rng, n):
 
 
 def c11_oracle(h, case, impl):
-    fails = []
+    fails = response_sequence_fails(impl)
     reads = {}
     for op, t, lines in split_steps(impl):
         if op[0] == "rx" and op[2] == "none" and int(op[1]) == MASTER:
